@@ -19,6 +19,9 @@
  *                                      protocol allows nothing but resume after pause.)
  *   print <word>                       tickit_term_printf(tt, "%s", <word>): text is drawn between pen requests (it is formatted in
  *                                      the terminal's scratch buffer, which the xterm driver's chpen uses for its SGR string too)
+ *   outbuf <n>                         (x only) tickit_term_set_output_buffer(tt, n): from now on the library collects its output in a
+ *                                      buffer of n bytes and hands it to the output function when the buffer is full or on flush
+ *   flush                              (x only) tickit_term_flush(tt); both observe `b=<hex of the bytes the output function received> pen=`
  *
  * Observations:  x: `b=<hex of the bytes written> pen=<cached pen>`      g: `n=<chpen calls> d=<delta> f=<final> pen=<cached pen>`
  *   suspend      x: `p=<hex of the bytes written by pause> b=<hex of the bytes written by resume> pen=<cached pen>`
@@ -282,6 +285,16 @@ static void engine_op(int argc, char **argv)
     if(mode == 'x') obs_out();
     else { obs("t="); obs_hex(gd->text, gd->ntext); }
     obs_cached();
+    return;
+  }
+  if(mode == 'x' && argc == 2 && strcmp(argv[0], "outbuf") == 0) {
+    tickit_term_set_output_buffer(tt, (size_t)atoi(argv[1]));
+    obs_out(); obs_cached();
+    return;
+  }
+  if(mode == 'x' && argc == 1 && strcmp(argv[0], "flush") == 0) {
+    tickit_term_flush(tt);
+    obs_out(); obs_cached();
     return;
   }
   if((mode != 'x' && mode != 'g') || argc != 2) { obs("bad-op"); return; }
